@@ -449,7 +449,9 @@ pub fn check_c14(obs: &Observation) -> V {
         if clean_quiescence && r.dropped_at.is_none() {
             for (la, ua, items, open) in &sessions {
                 // every item pushed after the remote read `linked` and before it sent `unlink`
-                let unlink_sent: Option<u64> = r.sent.iter().filter(|(s, st)| matches!(st, Step::Unlink(l) if l == "s") && *s > *la).map(|(s, _)| *s).next();
+                // the request that opened this session, and the first unlink request sent after it
+                let req_step: u64 = r.sent.iter().filter(|(s, st)| *s < *la && matches!(st, Step::Link(l) | Step::Sync(l) if l == "s")).map(|(s, _)| *s).last().unwrap_or(0);
+                let unlink_sent: Option<u64> = r.sent.iter().filter(|(s, st)| matches!(st, Step::Unlink(l) if l == "s") && *s > req_step).map(|(s, _)| *s).next();
                 let end = match (unlink_sent, ua) {
                     (Some(u), _) => u,
                     (None, Some(u)) => *u,
@@ -460,10 +462,21 @@ pub fn check_c14(obs: &Observation) -> V {
                     if *ps > *la && *ps < end && !items.contains(&i) {
                         // must be within quiescent prefix of truth
                         if obs.truth.iter().take(tq).any(|(s, t)| *s == *ps && *t == Truth::Push(*px)) {
-                            add(
-                                "as: supply item pushed while linked was never delivered".into(),
-                                format!("remote {}: push {} at step {} (linked read at {}, session end {}) missing; got indices {:?}", ri, px, ps, la, end, items),
-                            );
+                            // canonical classification: items that were still queued for a slow
+                            // remote when that remote's own unlink request was processed (a suffix
+                            // of the session, session closed by `unlinked` after the remote asked)
+                            let suffix = items.iter().all(|d| *d < i);
+                            if unlink_sent.is_some() && ua.is_some() && suffix {
+                                add(
+                                    "as: supply items still queued for a slow remote were discarded when its unlink request was processed".into(),
+                                    format!("remote {}: push {} at step {} (linked read at {}, unlink sent at {}) never delivered; got indices {:?}", ri, px, ps, la, end, items),
+                                );
+                            } else {
+                                add(
+                                    "as: supply item pushed while linked was never delivered".into(),
+                                    format!("remote {}: push {} at step {} (linked read at {}, session end {}) missing; got indices {:?}", ri, px, ps, la, end, items),
+                                );
+                            }
                         }
                     }
                 }
